@@ -188,7 +188,8 @@ func propC16(c *Check) {
 		for _, s := range p.renderedStores(pr) {
 			if s.addr == "Queue.Get()#0.OffBoarding" {
 				apps = append(apps, s.in)
-				want := "append(mix{@|Queue.Get()#0.OffBoarding}, [Codec.BytesToString(Address.Bytes($2.Removes[(1 + φ{-1|@})].Voter))#0])"
+				id := "[Codec.BytesToString(Address.Bytes($2.Removes[φ{(1 + @)|0}].Voter))#0]"
+				want := "append(mix{Queue.Get()#0.OffBoarding|append(@, " + id + ")}, " + id + ")"
 				if s.val != want {
 					c.Violated("R3", "removal-queue-append @ "+FuncKey(pr), p.InstrPos(s.in), "OffBoarding = "+s.val)
 				}
@@ -197,13 +198,13 @@ func propC16(c *Check) {
 		if len(apps) != 1 {
 			c.Violated("R3", "removal-queue-append-found @ "+FuncKey(pr), p.Pos(pr.Pos()), fmt.Sprintf("%d OffBoarding appends reason=not-established", len(apps)))
 		} else {
-			active := "φ{((1 + len(Relayer.Get()#0.Voters)) - len(Queue.Get()#0.OffBoarding))|@}"
+			active := "φ{((1 + len(Relayer.Get()#0.Voters)) - len(Queue.Get()#0.OffBoarding))|(@ - 1)}"
 			c.RequireFact(pr, "R3", "group-stays-non-empty", lit("(1 <= ("+active+" - 1))")+"|"+lit("(0 < ("+active+" - 1))"), instrSet(apps), "queueing a removal")
-			c.RequireFact(pr, "R3", "only-activated-removed", lit(EQ("VOTER_STATUS_ACTIVATED", "Voters.Get(Codec.BytesToString(Address.Bytes($2.Removes[(1 + φ{-1|@})].Voter))#0)#0.Status")), instrSet(apps), "queueing a removal")
+			c.RequireFact(pr, "R3", "only-activated-removed", lit(EQ("VOTER_STATUS_ACTIVATED", "Voters.Get(Codec.BytesToString(Address.Bytes($2.Removes[φ{(1 + @)|0}].Voter))#0)#0.Status")), instrSet(apps), "queueing a removal")
 			c.RequireFact(pr, "R3", "queue-stored", lit("(Queue.Set(Queue.Get()#0) == nil)")+"|"+lit(EQ("0", "len($2.Removes)")), nil, "")
 		}
 		// adds: only unknown addresses, registered as PENDING with the block height
-		c.RequireFact(pr, "R3", "add-only-unknown", lit("!Voters.Has(Codec.BytesToString($2.Adds[(1 + φ{-1|@})].Voter[:])#0)#0"), instrSet(callInstrs(p.FindCalls(pr, `^Voters\.Set\(Codec\.BytesToString\(\$2\.Adds`))), "registering a voter")
+		c.RequireFact(pr, "R3", "add-only-unknown", lit("!Voters.Has(Codec.BytesToString($2.Adds[φ{(1 + @)|0}].Voter[:])#0)#0"), instrSet(callInstrs(p.FindCalls(pr, `^Voters\.Set\(Codec\.BytesToString\(\$2\.Adds`))), "registering a voter")
 	}
 
 	// R4 election
